@@ -1190,11 +1190,12 @@ fn gen_ifdata(g: &mut IfGen) -> String {
     // CANDIDATE-FINDING C18-F1 (seen from C06): in non-strict mode the keyword-form sequence of strings takes the
     // identifier that follows it (the next tag) for a string, reports that, and the block ends up uninterpreted
     let kseq_swallows_tag = kseq && (name || (!blk && !seq && !seqs && arr));
-    // CANDIDATE-FINDING C06-F3: if such a block also has a comment between two of its sub-blocks, the non-strict load
-    // fails (C18-F5: uninterpreted IF_DATA with a comment between "/end X" and "/begin Y") while the strict load
-    // succeeds - a violation of the first sentence of the property. This combination is not generated.
-    let comment = want_comment && !kseq_swallows_tag;
+    // C06-F3 (such a block with a comment between two of its sub-blocks: non-strict load failed, C18-F1 + C18-F5): the C18-F5
+    // part is repaired in /repo 182b4fe: generated and checked again (what remains of it is the C18-F1 diagnostic above)
+    let comment = want_comment;
     let between = if comment { " /* between two blocks */\n" } else { "\n" };
+    // C18-F4 (comment directly in front of "/end IF_DATA"): repaired in /repo 7aa9d8e: generated and checked again
+    let comment_before_end = g.rng.chance(25);
 
     let mut s = String::new();
     s.push_str("/begin IF_DATA VND ");
@@ -1216,8 +1217,7 @@ fn gen_ifdata(g: &mut IfGen) -> String {
     if name {
         s.push_str(&format!("  NAME {}\n", ifd_string(g, 6)));
     }
-    // the sub-blocks; a comment (if any) stands between two of them, never behind the last one (a comment directly in front
-    // of "/end IF_DATA" is CANDIDATE-FINDING C18-F4)
+    // the sub-blocks; a comment (if any) stands between two of them
     let mut sub_blocks: Vec<String> = Vec::new();
     if blk {
         let mut b = format!("  /begin BLK {}", ifd_string(g, 5));
@@ -1255,6 +1255,9 @@ fn gen_ifdata(g: &mut IfGen) -> String {
     }
     if arr {
         s.push_str(&format!("  ARR {} {}\n", ifd_string(g, 3), ifd_string(g, 3)));
+    }
+    if comment_before_end {
+        s.push_str(if comment { "  // in front of the end\n" } else { "  /* in front of the end */ " });
     }
     s.push_str("/end IF_DATA");
     s
@@ -1320,9 +1323,10 @@ fn run_ifdata_case(rep: &mut Report, case: String, doc: String, faults: Vec<&'st
                 }
                 Err(e) => return fail(&format!("{case2}/ifdata-fault-nonstrict"), "non-strict load succeeds", format!("error: {e}")),
             }
-            // CANDIDATE-FINDING C18-F5: the fallback to uninterpreted data fails (in both modes) if a comment stands between two
-            // sub-blocks; the expectation is not checked in that case
-            if let (Err(e), false) = (&strict, comment_between_blocks) {
+            // C18-F5 (the fallback to uninterpreted data failed if a comment stands between two sub-blocks): repaired in /repo 182b4fe:
+            // checked again (comment_between_blocks is coverage information only)
+            let _ = comment_between_blocks;
+            if let Err(e) = &strict {
                 return fail(&format!("{case2}/ifdata-fault-strict"), "strict load succeeds (IF_DATA that does not match is kept uninterpreted)", format!("error: {e}"));
             }
         }
